@@ -158,6 +158,11 @@ func compareWithRef(c *ProgCase, r *CaseRun) error {
 			return fmt.Errorf("%s: value %s, documented semantics give %s\n src: %s\n env: %s", o.Be, b.Val.Render(), r.RefVal.Render(), r.Src, envSummary(c))
 		}
 	}
+	for _, b := range r.Runs {
+		if b.Again != "" {
+			return fmt.Errorf("%s: %s\n src: %s\n env: %s", b.O.Be, b.Again, r.Src, envSummary(c))
+		}
+	}
 	return nil
 }
 
